@@ -30,10 +30,22 @@ theorem inert_of_bland {q x : Nat} (hq : IsQ q) (h : Bland x) : Inert q x := by
   obtain ⟨h1, h2, h3, h4, h5, h6, h7, h8, h9⟩ := h
   rcases hq with rfl | rfl | rfl <;> (unfold Inert; omega)
 
-def scriptTail : List Nat := [115, 99, 114, 105, 112, 116, 62]
-theorem scriptEnd_eq : scriptEnd = 47 :: scriptTail := rfl
-theorem bland_scriptTail : ∀ x ∈ scriptTail, Bland x := by
-  intro x hx; simp [scriptTail] at hx; unfold Bland; omega
+/-- `parse.EqualFold(s, "/script")`: a slash followed by six letters -/
+theorem foldScript_inv {s : List Nat} (h : foldScript s = true) :
+    ∃ t, s = 47 :: t ∧ t.length = 6 ∧ ∀ x ∈ t, Bland x := by
+  unfold foldScript at h
+  split at h
+  · rename_i a b c d e f g
+    simp only [foldEq, Bool.and_eq_true, Bool.or_eq_true, decide_eq_true_eq] at h
+    obtain ⟨⟨⟨⟨⟨⟨ha, hb⟩, hc⟩, hd⟩, he⟩, hf⟩, hg⟩ := h
+    have ha' : a = 47 := by omega
+    subst ha'
+    refine ⟨[b, c, d, e, f, g], rfl, rfl, ?_⟩
+    intro x hx
+    simp only [List.mem_cons, List.mem_nil_iff, or_false] at hx
+    unfold Bland
+    rcases hx with rfl | rfl | rfl | rfl | rfl | rfl <;> omega
+  · simp at h
 
 theorem guard_append_right {p l : List Nat} (h : Guard cf (p ++ l) = true) : Guard cf l = true := by
   have := guard_drop h p.length; simpa using this
@@ -91,24 +103,31 @@ theorem sim_raw {m : Bool} {qi q : Nat} (cx : Ctx m qi q) {an : Bool} {c : Nat} 
       obtain ⟨h60, hlen⟩ := h60
       subst h60
       split
-      · -- `<\/script>` is skipped
+      · -- `<\/script` (any letter case) is copied as it is
         rename_i hs
-        obtain ⟨hh, hp⟩ := hs
-        obtain ⟨r'', hr''⟩ := prefix_split hp
-        have hr : r = 92 :: 47 :: (scriptTail ++ r'') := by
+        obtain ⟨hh, hlen8, hp⟩ := hs
+        obtain ⟨t, ht, htl, htb⟩ := foldScript_inv hp
+        have hr : r = 92 :: 47 :: (t ++ r.drop 8) := by
           cases r with
           | nil => simp at hh
           | cons a r0 =>
             simp only [List.head?_cons, Option.some.injEq] at hh
             subst hh
-            simp only [List.drop_succ_cons, List.drop_zero] at hr''
-            rw [hr'', scriptEnd_eq]; rfl
+            simp only [List.drop_succ_cons, List.drop_zero] at ht
+            have h1 : r0 = r0.take 7 ++ r0.drop 7 := (List.take_append_drop 7 r0).symm
+            rw [ht] at h1
+            simp only [List.drop_succ_cons]
+            conv => lhs; rw [h1]
+            simp
+        generalize hr'' : r.drop 8 = r'' at hr
+        have htake : List.take 7 (List.drop 1 r) = 47 :: t := ht
+        rw [htake]
         subst hr
         have hg' : Guard cf r'' = true := by
-          have := guard_drop hg 9; simpa [scriptTail] using this
-        -- input
-        have hin : decBody m qi (92 :: 47 :: (scriptTail ++ r'')) = (decBody m qi r'').map ((47 :: scriptTail) ++ ·) := by
-          rw [dec_esc_ident hqi (by omega) rfl (by omega), dec_bland_run hqi _ _ bland_scriptTail]
+          have := guard_drop hg (2 + t.length)
+          simpa [Nat.add_comm] using this
+        have hin : decBody m qi (92 :: 47 :: (t ++ r'')) = (decBody m qi r'').map ((47 :: t) ++ ·) := by
+          rw [dec_esc_ident hqi (by omega) rfl (by omega), dec_bland_run hqi _ _ htb]
           cases decBody m qi r'' <;> simp
         rw [hin] at hv
         cases hv'' : decBody m qi r'' with
@@ -116,39 +135,41 @@ theorem sim_raw {m : Bool} {qi q : Nat} (cx : Ctx m qi q) {an : Bool} {c : Nat} 
         | some v'' =>
           rw [hv''] at hv
           simp only [Option.map_some, Option.some.injEq] at hv
-          have hout := ih r'' (by simp [scriptTail]; omega) v'' hg' hv''
-          have hd9 : List.drop 9 (92 :: 47 :: (scriptTail ++ r'')) = r'' := by simp [scriptTail]
-          rw [hd9, scriptEnd_eq]
-          have : (60 :: 92 :: 47 :: scriptTail ++ repA q false r'') = 60 :: 92 :: 47 :: (scriptTail ++ repA q false r'') := rfl
+          have hout := ih r'' (by simp; omega) v'' hg' hv''
+          have : ((60 :: 92 :: 47 :: t, 8, false) : Res).1 ++ repA q ((60 :: 92 :: 47 :: t, 8, false) : Res).2.2 r'' =
+              60 :: 92 :: 47 :: (t ++ repA q false r'') := rfl
           rw [this, hplain _ (by omega), dec_esc_ident hq (by omega) rfl (by omega),
-            dec_bland_run hq _ _ bland_scriptTail, hout, ← hv]
+            dec_bland_run hq _ _ htb, hout, ← hv]
           rfl
       · split
-        · -- `</script>` gets a backslash
+        · -- `</script` (any letter case) gets a backslash
           rename_i hp
-          obtain ⟨r'', hr''⟩ := prefix_split hp
-          have hr : r = 47 :: (scriptTail ++ r'') := by rw [hr'', scriptEnd_eq]; rfl
+          obtain ⟨t, ht, htl, htb⟩ := foldScript_inv hp
+          have hr : r = 47 :: (t ++ r.drop 7) := by
+            have h1 : r = r.take 7 ++ r.drop 7 := (List.take_append_drop 7 r).symm
+            rw [ht] at h1
+            exact h1
+          generalize hr'' : r.drop 7 = r'' at hr
           subst hr
-          have hg' : Guard cf (scriptTail ++ r'') = true := by
+          have hg' : Guard cf (t ++ r'') = true := by
             have := guard_drop hg 1; simpa using this
-          have hin : decBody m qi (47 :: (scriptTail ++ r'')) = (decBody m qi (scriptTail ++ r'')).map ([47] ++ ·) := by
+          have hin : decBody m qi (47 :: (t ++ r'')) = (decBody m qi (t ++ r'')).map ([47] ++ ·) := by
             apply dec_plain (by omega) _ (by omega) (by omega) (by omega) (by omega)
             rcases hqi with h | h | h <;> omega
           rw [hin] at hv
-          cases hv'' : decBody m qi (scriptTail ++ r'') with
+          cases hv'' : decBody m qi (t ++ r'') with
           | none => rw [hv''] at hv; simp at hv
           | some v'' =>
             rw [hv''] at hv
             simp only [Option.map_some, Option.some.injEq] at hv
-            have hout := ih (scriptTail ++ r'') (by simp) v'' hg' hv''
-            have hd1 : List.drop 1 (47 :: (scriptTail ++ r'')) = scriptTail ++ r'' := rfl
+            have hout := ih (t ++ r'') (by simp) v'' hg' hv''
+            have hd1 : List.drop 1 (47 :: (t ++ r'')) = t ++ r'' := rfl
             rw [hd1]
-            have : ([60, 92, 47] ++ repA q false (scriptTail ++ r'')) = 60 :: 92 :: 47 :: repA q false (scriptTail ++ r'') := rfl
+            have : ([60, 92, 47] ++ repA q false (t ++ r'')) = 60 :: 92 :: 47 :: repA q false (t ++ r'') := rfl
             rw [this, hplain _ (by omega), dec_esc_ident hq (by omega) rfl (by omega), hout, ← hv]
             rfl
         · exact hdefault
     · exact hdefault
-
 
 /-- a raw multi-byte character -/
 theorem sim_utf8 {m : Bool} {qi q : Nat} (cx : Ctx m qi q) {an : Bool} {c k : Nat} {r us v' : List Nat}
